@@ -208,3 +208,22 @@ package tls
 //@   ensures[C14 nilornot] err == nil
 //@   loop 0 invariant[scan] rangeindex + 1 >= 0
 //@   loop 1 unroll 1
+
+// The client-certificate callback of ClientConfigs: whenever one of the stored (currently valid) chains was
+// issued by a CA the server lists as acceptable, that chain is offered - so a node holding two chains connects
+// through whichever one the server still recognizes. caMatches(m, k, want): bundle k of the map was issued by
+// the CA with raw subject want.
+//@ pred caMatches(m, k, want) := mapHas(m, k) && bytes(mapGet(m, k).ca.RawSubject) == bytes(want)
+//@ func tls.ClientConfigs$1
+//@   requires[cri] cri != nil
+// (ClientConfigs fills the map only with bundles whose leaf and CA certificate it has just parsed and nil-checked; that
+// this precondition holds where the closure is created is NOT machine-checked - unlike the server-side callback)
+//@   requires[bundles] forall k String :: mapHas(certMap, k) ==> mapGet(certMap, k) != nil && mapGet(certMap, k).leaf != nil && mapGet(certMap, k).ca != nil
+//@   nopanic[C07]
+//@   ensures[C07 offers] (exists i Int, k String :: 0 <= i && i < len(cri.AcceptableCAs) && caMatches(certMap, k, cri.AcceptableCAs[i])) ==> err == nil && ret != nil
+//@   ensures[C07 chain] err == nil ==> ret != nil && exists k String :: mapHas(certMap, k) && ret.Leaf == mapGet(certMap, k).leaf
+//@   ensures[C07 failclosed] err != nil ==> ret == nil
+//@   loop 0 invariant[outer] rangeindex + 1 >= 0 && (forall i Int, k String :: 0 <= i && i <= rangeindex ==> !caMatches(certMap, k, cri.AcceptableCAs[i]))
+//@   loop 1 invariant[inner] rangeindex + 1 >= 0 && rangeindex + 1 < len(cri.AcceptableCAs) && acceptableCa == cri.AcceptableCAs[rangeindex + 1]
+//@   |   && (forall i Int, k String :: 0 <= i && i <= rangeindex ==> !caMatches(certMap, k, cri.AcceptableCAs[i]))
+//@   |   && (forall k String :: rangeVisited(k) ==> !caMatches(certMap, k, acceptableCa))
